@@ -473,8 +473,14 @@ func (ndb *nodeDB) deleteVersion(version int64, cache *rootkeyCache) error {
 		ndb.logger.Error("Error while pruning, moving on the the next version in the store", "version missing", version, "next version", version+1, "err", err)
 	}
 
+	literalRootKey := GetRootKey(version)
+	// rootOrphaned tells whether the root node of the version is removed by the next version.
+	rootOrphaned := false
 	if rootKey != nil {
 		if err := ndb.traverseOrphansWithRootkeyCache(cache, version, version+1, func(orphan *Node) error {
+			if !orphan.isLegacy && bytes.Equal(orphan.nodeKey.GetKey(), literalRootKey) {
+				rootOrphaned = true
+			}
 			if orphan.nodeKey.nonce == 0 && !orphan.isLegacy {
 				// if the orphan is a reformatted root, it can be a legacy root
 				// so it should be removed from the pruning process.
@@ -498,7 +504,6 @@ func (ndb *nodeDB) deleteVersion(version int64, cache *rootkeyCache) error {
 		}
 	}
 
-	literalRootKey := GetRootKey(version)
 	if rootKey == nil || !bytes.Equal(rootKey, literalRootKey) {
 		// if the root key is not matched with the literal root key, it means the given root
 		// is a reference root to the previous version.
@@ -512,8 +517,11 @@ func (ndb *nodeDB) deleteVersion(version int64, cache *rootkeyCache) error {
 	if err != nil && !errors.Is(err, ErrVersionDoesNotExist) {
 		return err
 	}
-	if bytes.Equal(literalRootKey, nextRootKey) {
-		root, err := ndb.GetNode(nextRootKey)
+	// the root node is also kept by the next version when it is a single leaf that
+	// became a child there; it has to be reformatted as well, otherwise the deleted
+	// version stays visible and the leaf is never pruned
+	if bytes.Equal(literalRootKey, nextRootKey) || (nextRootKey != nil && bytes.Equal(literalRootKey, rootKey) && !rootOrphaned) {
+		root, err := ndb.GetNode(literalRootKey)
 		if err != nil {
 			return err
 		}
